@@ -60,7 +60,7 @@ class E3:
         tv = mkstruct(RAWTABLE, {"N": vint(N), "G": vint(G), "#tid": ("tid", 0)})
         st.store[SEAL0] = mkstruct(r.entry, {"#seal_of": CACHE0})
         st.store[CACHE0] = mkstruct(r.cache, {r.TABLE: tv, r.SEAL: ip.eptr(("ptr", SEAL0, ())), r.CS: vint(CS), r.MS: vint(MS),
-                                              r.HB: ("opq", 0)})
+                                              r.HB: ("opq", 0), "#list_tid": ("tid", 0)})
         return st
 
     def cache_fields(self, st, oid=CACHE0, val=None):
@@ -842,7 +842,9 @@ def apply(ctx, res, prop, floor=None):
                  (prop == "C07" and rec["prop"] == "C16" and (rec["key"].endswith(":no-link-into-unowned-table") or
                                                               rec["key"].endswith(":table-not-detached") or rec["key"].endswith(":no-unlinked-entry"))) or \
                  (prop == "C11" and rec["prop"] == "C03" and rec["key"].startswith("mutate:")) or \
-                 (prop == "C10" and rec["prop"] == "C01" and ":add->" in rec["key"] and rec["key"].split(":")[0] in ("insert", "try_insert"))
+                 (prop == "C10" and rec["prop"] == "C01" and ":add->" in rec["key"] and rec["key"].split(":")[0] in ("insert", "try_insert")) or \
+                 (prop == "C03" and rec["prop"] == "C10" and rec["key"].startswith("insert:exit[Err") and rec["key"].endswith(":atomic")) or \
+                 (prop == "C03" and rec["prop"] == "C11" and rec["key"].endswith(":re-accounted"))
         if rec["prop"] != prop and not shared:
             continue
         n += 1
